@@ -638,6 +638,58 @@ class C10Executor(Executor):
                 return False                                          # self handed to another function
         return True
 
+    def e_GeneratorExp(self, n, st):
+        """(E for t in IT if C) over a symbolic IT: a lazy view (index -> (C, E)); consumers: any(), all()"""
+        if len(n.generators) == 1 and not n.generators[0].is_async:
+            g = n.generators[0]
+            probe = self.ev(g.iter, st.fork())
+            if len(probe) == 1 and isinstance(probe[0][1], VSeq) and self.concrete_items(probe[0][0], probe[0][1]) is None:
+                from pyvc.state import Frame
+                out = []
+                for (s2, it) in self.ev(g.iter, st):
+                    def at(j, s2=s2, it=it):
+                        s3 = s2.fork()
+                        s3.frames.append(Frame({}, len(s3.frames) - 1, s3.frame.fnode))
+                        mark = len(self.sinks[-1])
+                        sts = self.assign(g.target, it.elem(j), s3)
+                        conds = []
+                        if len(sts) != 1:
+                            self.unsupported(n, "generator expression: forking target")
+                        cur = sts[0]
+                        for c_ in g.ifs:
+                            r = self.ev(c_, cur)
+                            if len(r) != 1:
+                                self.unsupported(n, "generator expression: forking condition")
+                            cur = r[0][0]
+                            conds.append(self.truth(cur, r[0][1]).t)
+                        r = self.ev(n.elt, cur)
+                        if len(r) != 1 or len(self.sinks[-1]) != mark:
+                            del self.sinks[-1][mark:]
+                            self.unsupported(n, "generator expression: forking / raising element")
+                        return z3.And(conds + [z3.BoolVal(True)]), r[0][1]
+                    out.append((s2, VSeq(it.length, lambda j, at=at: at(j)[1], "genexp", tag=("genexp", at))))
+                return out
+        return super().e_GeneratorExp(n, st)
+
+    def _quantify(self, st, v, conj):
+        j = z3.Int(fresh_name("j!gen"))
+        cond, elt = v.tag[1](j)
+        t = self.truth(st, elt).t
+        rng = z3.And(j >= 0, j < v.length)
+        return VBool(z3.Exists([j], z3.And(rng, cond, t))) if not conj else VBool(z3.ForAll([j], z3.Implies(z3.And(rng, cond), t)))
+
+    def b_any(self, st, args, kwargs, node):
+        v = args[0]
+        if isinstance(v, VSeq) and isinstance(v.tag, tuple) and v.tag and v.tag[0] == "genexp":
+            return [(st, self._quantify(st, v, False))]
+        return super().b_any(st, args, kwargs, node)
+
+    def b_all(self, st, args, kwargs, node):
+        v = args[0]
+        if isinstance(v, VSeq) and isinstance(v.tag, tuple) and v.tag and v.tag[0] == "genexp":
+            return [(st, self._quantify(st, v, True))]
+        return super().b_all(st, args, kwargs, node)
+
     def _comp_as_loop(self, n, st):
         """[E for t in IT if C] over a SYMBOLIC IT for which the contract has a loop role is executed as the loop it abbreviates:
         tmp = []; for t in IT: if C: tmp.append(E)   (so selection written as a comprehension meets the same invariant)"""
@@ -1389,6 +1441,16 @@ class MemberExecutor(C10Executor):
     def on_yield_from(self, st, gen, node):
         if isinstance(gen, VExt) and gen.sort == "ResultGen":
             self.exc_any(st.fork(), "next(extractor results)")      # the delegated-to generator may fail at any point
+            # `yield from extractor(...)` is the delegation form of `for r in extractor(...): yield r` (PY-GEN): the same obligation,
+            # stated on the delegated-to generator = the result generator of THE dispatch
+            lab = "yields-the-extractor-results-in-order"
+            if self.contract is not None and any(isinstance(k, tuple) and k[0] == "role" and k[1] == lab for k in self.contract.loops):
+                d = events(st, "dispatch")
+                ok = z3.BoolVal(False)
+                if len(d) == 1 and len(d[0][1]) == 1 and isinstance(d[0][2].get("path"), VStr) and isinstance(d[0][1][0], VExt):
+                    ok = gen.t == RUN(d[0][0].t, d[0][1][0].t, d[0][2]["path"].t)
+                self.add_vc("inv-init", lab, st.pc, z3.BoolVal(True), loc=self.loc(node))
+                self.add_vc("inv-preserve", lab, st.pc, ok, loc=self.loc(node))
         st.ghost["yields"] = events(st, "yields") + (gen,)
 
     def list_method(self, st, obj, name, args, kwargs, node):
